@@ -343,6 +343,13 @@ where
     let n = fwd.len();
     let cost = |e: G::EdgeRef| K::from_i64(e.weight().to_i64());
     f.insert("dj".into(), run(|| json!((0..n).map(|s| distmap_json(&algo::dijkstra(g, fwd[s], None, cost), fwd)).collect::<Vec<_>>())));
+    // the same through a NodeFiltered view keeping the even abstract ids: judged on the node-induced subgraph (rows of
+    // hidden sources are not computed: -2)
+    f.insert("dj_nf".into(), run(|| {
+        let keep = |x: G::NodeId| inv.get(&x).map(|i| i % 2 == 0).unwrap_or(false);
+        let nf = petgraph::visit::NodeFiltered::from_fn(g, keep);
+        json!((0..n).map(|s| if s % 2 == 0 { distmap_json(&algo::dijkstra(&nf, fwd[s], None, |e| K::from_i64(e.weight().to_i64())), fwd) } else { json!([-2]) }).collect::<Vec<_>>())
+    }));
     // with a goal: a few (s, goal) pairs
     let pairs: Vec<(usize, usize)> = (0..n.min(4)).map(|_| (rng.below(n), rng.below(n))).collect();
     f.insert("djg".into(), run(|| json!(pairs.iter().map(|&(s, t)| json!({"s": s, "t": t, "d": distmap_json(&algo::dijkstra(g, fwd[s], Some(fwd[t]), cost), fwd)})).collect::<Vec<_>>())));
